@@ -90,7 +90,7 @@ func H_C07_Hidden(v *sym.V) {
 	plain := &plainErr{h.Error()} // same text, no annotations, a type of its own
 	base := errors.New("base")
 	kind := v.Choice("hider", numHiders)
-	m := "msg"
+	m := v.Str("msg", sym.REGNN, 0, 1) // the replacement message, possibly empty
 	e := hide(kind, base, h, m)
 	ep := hide(kind, base, plain, m)
 	tag := fmt.Sprintf("hider%d", kind)
